@@ -49,6 +49,10 @@ def make_dataset(conv, shape, variant):
         ny, nx = shape
         ds = builders.cf2d(ny, nx, as_coords=(variant != 'plainvars'),
                            data_vars={'v': (('x', 'y'), numpy.zeros((nx, ny)))})
+        if variant == 'lonT':
+            # the longitude variable stored (x, y) next to a latitude stored (y, x): the grid is (y, x) all the same
+            lon = ds['lon']
+            ds = ds.drop_vars('lon').assign_coords(lon=(('x', 'y'), lon.values.T, lon.attrs))
         return ds, CFGrid2D(ds), {'face': (ny, nx)}
     if conv == 'shoc_simple':
         nj, ni = shape
@@ -57,6 +61,11 @@ def make_dataset(conv, shape, variant):
     if conv == 'shoc_standard':
         nj, ni = shape
         ds = builders.shoc_standard(nj, ni)
+        if variant == 'named':
+            # the generic Arakawa C convention with the coordinate names given by the caller, keys in an arbitrary order
+            from emsarray.conventions.arakawa_c import ArakawaC, ArakawaCGridKind as K
+            names = {K.node: ('y_grid', 'x_grid'), K.back: ('y_back', 'x_back'), K.face: ('y_centre', 'x_centre'), K.left: ('y_left', 'x_left')}
+            return ds, ArakawaC(ds, coordinate_names=names), builders.shoc_shapes(nj, ni)
         return ds, ShocStandard(ds), builders.shoc_shapes(nj, ni)
     if conv == 'ugrid':
         mesh, mode = shape, variant
@@ -199,10 +208,12 @@ def cases(tier):
     for shp in shapes:
         for variant in ('yx', 'index', 'swapnames', 'explicit', 'explicit-topology'):
             configs.append(('cf1d', shp, variant, ['face']))
-        for variant in ('coords', 'plainvars'):
+        for variant in ('coords', 'plainvars', 'lonT'):
             configs.append(('cf2d', shp, variant, ['face']))
         configs.append(('shoc_simple', shp, '-', ['face']))
         configs.append(('shoc_standard', shp, '-', ['face', 'left', 'back', 'node']))
+        if shp[0] != shp[1]:
+            configs.append(('shoc_standard', shp, 'named', ['face', 'left', 'back', 'node']))
     meshes = ['tq', 'tqp', 'fan', 'tri'] if tier == 'quick' else list(builders.MESHES)
     for mesh in meshes:
         configs.append(('ugrid', mesh, 'noedge', ['face', 'node']))
